@@ -18,8 +18,8 @@ from .thresha_common import FIELDS, run_worker, consts, validate_calls, failing_
 def plan(ctx):
     if ctx.quick:
         return [('GF(5)', 3, 1), ('GF(7)', 4, 1), ('GF(7)', 5, 2), ('GF(2^3)', 3, 1), ('GF(3^2)', 4, 1), ('GF(11)', 2, 0)]
-    return [(f, m, t) for f in FIELDS for (m, t) in ((1, 0), (2, 0), (3, 1), (4, 1), (5, 2), (6, 2), (7, 3))
-            if FIELDS[f][0] ** FIELDS[f][1] > m]
+    return [('GF(5)', 1, 0), ('GF(5)', 3, 1), ('GF(5)', 4, 1), ('GF(7)', 2, 0), ('GF(7)', 4, 1), ('GF(7)', 5, 2), ('GF(7)', 6, 2), ('GF(11)', 3, 1),
+            ('GF(11)', 7, 3), ('GF(13)', 5, 2), ('GF(2^2)', 3, 1), ('GF(2^3)', 3, 1), ('GF(2^3)', 5, 2), ('GF(3^2)', 4, 1), ('GF(3^2)', 6, 2)]
 
 
 def run(ctx):
@@ -43,7 +43,7 @@ def run(ctx):
                     ctx.violation(f'C15:model:{res.violation}', {'field': fname, 'm': m, 't': t, 'cex': res.cex[-1:]})
             for use_np in [False] + ([True] if have_np() else []):
                 job = {'what': 'prss', 'p': P, 'd': D, 'modint': modint, 'm': m, 't': t, 'np': use_np,
-                       'seed': ctx.seed, 'budget': 150 if ctx.quick else 1500}
+                       'seed': ctx.seed, 'budget': 150 if ctx.quick else 800}
                 d, err = run_worker(wd, job, tag + ('np' if use_np else ''))
                 if d is None:
                     ctx.violation(f'C15:impl-raises:{"np" if use_np else "list"}', {'field': fname, 'm': m, 't': t, 'stderr': err})
